@@ -393,3 +393,70 @@ def nary_path(leaves=LEAVES4):
                 out.append((op, l1, x, leaves[0]))
                 out.append((op, l1, leaves[0], x))
     return out
+
+
+# ---------------------------------------------------------------- negation-rich families
+
+def literal_leaves(leaves=LEAVES2):
+    return tuple(leaves) + tuple(('not', l) for l in leaves)
+
+
+def negated_path(leaves=LEAVES2):
+    """One temporal/Boolean operator over literals p, not p, ..., bare and under an outer negation
+    (shapes like `not X not p`, `not (not p U q)`) plus two-operator towers X not X, not F not G."""
+    lits = literal_leaves(leaves)
+    one = list(path_iter_size(1, lits))
+    out = list(one) + [('not', g) for g in one]
+    for a in ('X', 'F', 'G'):
+        for b in ('X', 'F', 'G'):
+            for l in lits:
+                out.append((a, ('not', (b, l))))
+                out.append(('not', (a, ('not', (b, l)))))
+    seen = set()
+    return [g for g in out if not (g in seen or seen.add(g))]
+
+
+def negated_ctl(leaves=LEAVES2):
+    lits = literal_leaves(leaves)
+    one = list(ctl_iter_size(1, lits))
+    out = list(one) + [('not', g) for g in one]
+    for qa in ('AX', 'EX', 'AF', 'EG', 'AG', 'EF'):
+        for qb in ('AX', 'EX', 'EG', 'AF'):
+            for l in lits:
+                out.append(_ctl_un(qa, ('not', _ctl_un(qb, l))))
+    seen = set()
+    return [g for g in out if not (g in seen or seen.add(g))]
+
+
+def k_edits(k, atoms=('p', 'q')):
+    """Single public-API edits of a structure: (description, edited K) pairs.
+    add one missing edge, or toggle one (state, atom) label."""
+    out = []
+    for i in range(k.n):
+        for j in range(k.n):
+            if j not in k.succ[i]:
+                succ = [tuple(sorted(set(k.succ[x]) | ({j} if x == i else set()))) for x in range(k.n)]
+                out.append((('add_edge', i, j), K(k.n, succ, k.lab)))
+    for i in range(k.n):
+        for a in atoms:
+            lab = [set(l) for l in k.lab]
+            if a in lab[i]:
+                lab[i].discard(a)
+                out.append((('del_label', i, a), K(k.n, k.succ, lab)))
+            else:
+                lab[i].add(a)
+                out.append((('add_label', i, a), K(k.n, k.succ, lab)))
+    return out
+
+
+def apply_edit(Kl, edit, names=None):
+    """Apply one edit of k_edits to a live library Kripke through its public API."""
+    nm = (lambda i: i) if names is None else (lambda i: names[i])
+    if edit[0] == 'add_edge':
+        Kl.add_edge(nm(edit[1]), nm(edit[2]))
+    elif edit[0] == 'add_label':
+        Kl.labels(nm(edit[1])).add(edit[2])
+    elif edit[0] == 'del_label':
+        Kl.labels(nm(edit[1])).discard(edit[2])
+    else:
+        raise ValueError(edit)
